@@ -503,3 +503,7 @@ macro_rules! cover_tree_builds {
 cover_tree_builds!(c04_cover_tree_builds_single, |p: i32| vec![p]);
 // @vp name=c04_cover_tree_builds_identical prop=C04 tier=thorough t=3600 fns=CoverTree::new,build_cover_tree,batch_insert,get_scale size=n=2 dom=lattice(-4..4),identical stubs=ln_surrogate,no_format
 cover_tree_builds!(c04_cover_tree_builds_identical, |p: i32| vec![p, p]);
+
+// NOTE: KNNRegressor::{fit, predict} over the exhaustive scan was tried once more at the smallest sizes (n = 2, k = 1 and k = 2,
+// 1-D lattice, both weightings, oracle = weighted mean over some k-nearest set): not finished in 25 min.  The estimators'
+// aggregation therefore stays outside the claim; its ingredients (scan, selection structure, weights) are decided separately.
